@@ -13,6 +13,8 @@ def run_zones(ctx, prog, body, pre, pre_text, rule="R18", floor=None):
     from .facts import inline_calls
     key_body = body
     body = inline_calls(prog, body, helper_filter(prog))
+    from .facts import eliminate_static_refs
+    body = eliminate_static_refs(prog, body)
     za = ZoneAnalysis(body, pre)
     obs = za.run()
     ordinal = {}
